@@ -87,6 +87,9 @@ class NetExec:
             pair.restore()
             self.h = None
             self.ctl.chan.clear()
+            self.graveyard = []
+            import gc
+            gc.collect()  # finalise this run's leftovers now, while no scheduler is active
         errs = [(t.name, repr(t.exc)) for t in sc.threads if t.exc is not None and not isinstance(t.exc, S.SchedAbort)]
         if errs and not self.error:
             self.error = "thread errors: %r" % (errs[:3],)
@@ -172,6 +175,15 @@ class NetExec:
                 if cur is not None and cur is not self.h[side][cid]:
                     self.graveyard.append(self.h[side].pop(cid))
                 del cur
+        # the same for worker-side channels of still executing bodies (they cannot be dropped): the body stays
+        # blocked until tear-down and is never finished through the op interface again
+        regb = self.gw["B"]._channelfactory._channels
+        for cid in list(self.ctl.chan):
+            cur = regb.get(cid)
+            if cur is not None and cur is not self.ctl.chan[cid]:
+                self.graveyard.append(self.ctl.chan.pop(cid))
+                self.h["B"].pop(cid, None)
+            del cur
 
     def do(self, op):
         try:
@@ -380,6 +392,10 @@ class RandomProgram(NetExec):
             self.settle()
             for _ in range(self.nops):
                 for op in self.next_ops():
+                    if callable(op):  # decided only now, from the handles that exist after the previous op
+                        op = op()
+                        if op is None:
+                            continue
                     self.ops.append(op)
                     self.outs.append(self.do(op))
             self.digest = self.make_digest()
@@ -393,6 +409,9 @@ class RandomProgram(NetExec):
             pair.restore()
             self.h = None
             self.ctl.chan.clear()
+            self.graveyard = []
+            import gc
+            gc.collect()  # finalise this run's leftovers now, while no scheduler is active
         errs = [(t.name, repr(t.exc)) for t in sc.threads if t.exc is not None and not isinstance(t.exc, S.SchedAbort)]
         if errs and not self.error:
             self.error = "thread errors: %r" % (errs[:3],)
@@ -464,10 +483,13 @@ class RandomProgram(NetExec):
             peer_reg = set(self.gw[peer]._channelfactory._channels.keys())
             peer_ever = set(self.ever[peer]) | (set(self.ctl.ever) if peer == "B" else set())
             # a conversation id is never re-opened on a side that already closed or dropped it (model scope)
-            others = [c for c in ids if c != cid and (c in peer_reg or c not in peer_ever)]
+            # ... and only channel objects that are still open at the sender travel
+            others = [c for c in ids if c != cid and (c in peer_reg or c not in peer_ever)
+                      and not self.get_handle(side, c)._closed]
             if others and w.get("transfer", True) and self.get_handle(peer, cid) is not None:
                 c2 = r.choice(others)
-                return ["send %s %d %d %d" % (side, cid, self.newval(), c2), "deliver " + peer, "recv %s %d" % (peer, cid)]
+                return ["send %s %d %d %d" % (side, cid, self.newval(), c2), "deliver " + peer,
+                        lambda: ("recv %s %d" % (peer, cid)) if self.get_handle(peer, cid) is not None else None]
             return ["deliver " + side]
         if choice < 0.975 and w.get("cut", True):
             s2 = r.choice("AB")
